@@ -226,6 +226,33 @@ def run(F, rep):
     if n_s < 2:
         raise AnalysisBroken('C04.S1: import-source id insertions vanished (%d found, 2 confirmed)' % n_s)
 
+    # ------------------------------------------------------------------ A / P: flags and cycle guards of the rule functions
+    rep.rule('C04.A1', 'in validator.cpp a flag that is gathered over a loop and consulted afterwards is only ever raised inside the loop, or the loop stops at the first hit: '
+                       'otherwise the last element decides (e.g. whether an equivalent variable already has a reset of that order)')
+    from engines import accumulating_flags
+    n_a = 0
+    for g in vfs.values():
+        for v, loop, x, mono in accumulating_flags(g):
+            n_a += 1
+            rep.check(mono, 'C04.A1', '%s|%s' % (g.name, render(x)[:50]), g.where(x), '%s: `%s` inside the loop lets the last element decide %s, which is consulted after the loop' % (g.short, render(x)[:60], v['n']), 'only raised')
+    rep.ok('C04.A1', 'scan', None, '%d accumulating flags in validator.cpp' % n_a)
+    rep.rule('C04.P1', 'the cycle guard of the units reduction used for connected variables pops what it pushed on every path (units reached twice along different branches are not a cycle)')
+    import recursion
+    n_p = 0
+    for g in F.funcs.values():
+        if g.file.endswith('/validator.cpp'):
+            for c, name, ok, detail in recursion.path_guard_balance(F, g):
+                n_p += 1
+                rep.check(ok, 'C04.P1', '%s|%s' % (g.name, name), g.where(c), '%s: after `%s` some path reaches the exit without pop_back (%s)' % (g.short, render(c)[:40], detail), 'balanced (%s)' % detail)
+    for g in F.funcs.values():
+        if g.file.endswith('/validator.cpp'):
+            for c, name, ok, detail in recursion.history_discipline(F, g):
+                n_p += 1
+                rep.check(ok, 'C04.P1', '%s|%s|l%s' % (g.name, name, sum(1 for x in g.walk() if x.get('k') == 'Call' and x.get('fn') == 'push_back' and x.get('l', 0) < c.get('l', 0))), g.where(c),
+                          '%s pushes an epoch on the shared visit history and some path reaches the exit without popping it (%s): a later sibling import is reported as a cyclic dependency although the model is valid' % (g.short, detail), 'popped (%s)' % detail)
+    if n_p < 5:
+        raise AnalysisBroken('C04.P1: cycle guards / history pushes of the validator vanished (%d found, 7 confirmed)' % n_p)
+
     # ------------------------------------------------------------------ clauses shared with C16 (value recognisers the validator relies on)
     import core
     import c16
